@@ -245,10 +245,20 @@ class State:
                 if name is None:
                     raise ValueError("tag_state requires a 'name' parameter")
                 values = list(invals) if invals else []
+                # The equation's operands are the flat leaves of the tagged values:
+                # rebuild each value's pytree structure before collecting it
+                in_tree = params.get("in_tree", inner_params.get("in_tree"))
+                if in_tree is None:
+                    tagged = tuple(values)
+                else:
+                    num_consts = params.get(
+                        "num_consts", inner_params.get("num_consts", 0)
+                    )
+                    tagged = jtu.tree_unflatten(in_tree, values[num_consts:])
                 value = (
-                    tuple(values)
-                    if len(values) > 1
-                    else (values[0] if values else None)
+                    tuple(tagged)
+                    if len(tagged) > 1
+                    else (tagged[0] if tagged else None)
                 )
 
                 # Handle leaf mode storage (special case for save(*args))
@@ -506,18 +516,15 @@ def tag_state(*values: Any, name: str) -> Any:
             return tuple(args) if len(args) > 1 else args[0]
 
         # Apply the primitive to the vectorized args
+        # (the operands are flat leaves: give the values their pytree structure back)
+        vector_values = jtu.tree_unflatten(params["in_tree"], vector_args)
         result = initial_style_bind(
             state_p,
             batch=batch_rule,  # Self-reference for nested vmaps
-        )(vectorized_identity, name=params.get("name"))(*vector_args)
+        )(vectorized_identity, name=params.get("name"))(*vector_values)
 
-        # Return result with appropriate batching dimensions
-        if isinstance(result, tuple):
-            # The values pass through unchanged: output i is batched like operand i
-            return result, tuple(dims)
-        else:
-            # For single output, return as tuple (JAX expects a sequence for dims_out)
-            return (result,), (dims[0] if dims else (),)
+        # The values pass through unchanged: output leaf i is batched like operand i
+        return jtu.tree_leaves(result), tuple(dims)
 
     result = initial_style_bind(
         state_p,
